@@ -71,6 +71,9 @@ func oracleChangeSets() Oracle {
 					var es []csEntry
 					for _, p := range cs.Pairs {
 						es = append(es, csEntry{p.Delete, string(p.Key), string(p.Value)})
+						if !p.Delete && p.Value == nil {
+							return fmt.Errorf("the pair for key %q of version %d carries a nil value (the stored value is empty; SaveChangeSet rejects nil)", p.Key, v)
+						}
 					}
 					seen[v] = es
 					if start == 0 && end == m.Latest+2 {
@@ -175,9 +178,17 @@ func c15Specs(tier string) []*Spec {
 		specs = append(specs, &Spec{Weight: 8, ID: "C15", Name: name, Cfg: cfg, Keys: bs("a"), Vals: bs("x", "y"), MaxDepth: depth, MaxMaint: 1,
 			Alphabet: a.Ops, Oracles: []Oracle{oracleChangeSets()}})
 	}
+	// the empty value is a legal stored value: a change set must carry it as an (empty, non-nil) value that SaveChangeSet accepts
+	addEmptyVal := func(name string, cfg Cfg, depth, wt int) {
+		a := Alpha{Writes: true, RemoveAbsent: true, Save: true, Rollback: true, Reopen: []reopenVar{{0, true, 0}}, SaveCS: true, MaxVersions: 4}
+		specs = append(specs, &Spec{Weight: wt, ID: "C15", Name: name, Cfg: cfg, Keys: bs("a", "b"), Vals: bs("", "x"), MaxDepth: depth, MaxMaint: 1,
+			Alphabet: a.Ops, Oracles: []Oracle{oracleChangeSets()}})
+	}
 	k2 := bs("a", "b")
 	k3 := bs("a", "ab", "b")
 	if tier == "quick" {
+		addEmptyVal("emptyvalue/2keys/d5", defaultCfg, 5, 4)
+		addEmptyVal("emptyvalue-nofast/2keys/d4", Cfg{Fast: false}, 4, 2)
 		addResave("resave/1key/d9", defaultCfg, 9)
 		addResave("resave-nofast/1key/d9", Cfg{Fast: false, Cache: 1000}, 9)
 		add("default/2keys/d6", defaultCfg, k2, 6, 1, 20)
@@ -186,6 +197,8 @@ func c15Specs(tier string) []*Spec {
 		add("iv7/2keys/d5", Cfg{Fast: true, IVSet: true, IV: 7}, k2, 5, 1, 3)
 		return specs
 	}
+	addEmptyVal("emptyvalue/2keys/d7", defaultCfg, 7, 8)
+	addEmptyVal("emptyvalue-nofast/2keys/d6", Cfg{Fast: false}, 6, 4)
 	addResave("resave/1key/d11", defaultCfg, 11)
 	addResave("resave-nofast/1key/d11", Cfg{Fast: false, Cache: 1000}, 11)
 	add("default/2keys/d8", defaultCfg, k2, 8, 2, 30)
